@@ -272,12 +272,19 @@ def eval_op(op, ins, t_in, t_out):
         q = np.where(y >= 0, np.floor(y + 0.5), -np.floor(-y + 0.5)).astype(np.int64) + yq["zp"][0]
         return [np.clip(q, lo, hi).reshape(t_out[0]["shape"])]
     if name == "RESIZE_NEAREST_NEIGHBOR":
-        if o.get("AlignCorners") or o.get("HalfPixelCenters"):
-            raise Unsupported("resize options")
         n, h, w, c = ins[0].shape
         oh, ow = (int(v) for v in np.asarray(ins[1]).reshape(-1))
-        yi = (np.arange(oh) * h // oh)
-        xi = (np.arange(ow) * w // ow)
+        ac, hp = bool(o.get("AlignCorners")), bool(o.get("HalfPixelCenters"))
+
+        def nearest(osz, isz):
+            # TFLite reference GetNearestNeighbor (float32 arithmetic, TfLiteRound = half away from zero)
+            scale = np.float32(isz - 1) / np.float32(osz - 1) if (ac and osz > 1) else np.float32(isz) / np.float32(osz)
+            off = np.float32(0.5) if hp else np.float32(0.0)
+            v = (np.arange(osz, dtype=np.float32) + off) * scale
+            idx = np.floor(v + np.float32(0.5)) if ac else np.floor(v)
+            return np.minimum(idx.astype(np.int64), isz - 1)
+
+        yi, xi = nearest(oh, h), nearest(ow, w)
         return [ins[0][:, yi][:, :, xi]]
     if name == "SOFTMAX":
         xq = t_in[0]["quant"]
